@@ -162,6 +162,27 @@ theorem polyEqN_sound {o : Ops R} (ho : RingLike o) (env : Nat → R) (n : Nat) 
 theorem polyEq_sound' {o : Ops R} (ho : RingLike o) {a b : E} (h : polyEq a b = true) (env : Nat → R) :
     a.eval o env = b.eval o env := polyEqN_sound ho env 4 a b h
 
+theorem rw1_sound {α : Type} (o : Ops α) (env : Nat → α) {σ : List (E × E)}
+    (hσ : ∀ p ∈ σ, p.1.eval o env = p.2.eval o env) (e : E) : (rw1 σ e).eval o env = e.eval o env := by
+  unfold rw1
+  split
+  · rename_i p hp
+    have hmem := List.mem_of_find?_eq_some hp
+    have hk := List.find?_some hp
+    rw [← hσ p hmem, eq_of_beq hk]
+  · rfl
+
+theorem E.rewrite_sound {α : Type} (o : Ops α) (env : Nat → α) {σ : List (E × E)}
+    (hσ : ∀ p ∈ σ, p.1.eval o env = p.2.eval o env) (e : E) : (e.rewrite σ).eval o env = e.eval o env := by
+  induction e with
+  | add a b iha ihb | sub a b iha ihb | mul a b iha ihb | div a b iha ihb =>
+    simp only [E.rewrite, rw1_sound o env hσ, E.eval, iha, ihb]
+  | neg a iha => simp only [E.rewrite, rw1_sound o env hσ, E.eval, iha]
+  | call1 f a iha => simp only [E.rewrite, rw1_sound o env hσ, E.eval, iha]
+  | call2 f a b iha ihb => simp only [E.rewrite, rw1_sound o env hσ, E.eval, iha, ihb]
+  | call3 f a b c iha ihb ihc => simp only [E.rewrite, rw1_sound o env hσ, E.eval, iha, ihb, ihc]
+  | _ => simp only [E.rewrite, rw1_sound o env hσ]
+
 /-- the ring-semantics instance used by the division-free families -/
 theorem polyEq_sound {a b : E} (h : polyEq a b = true) (env : Nat → R) :
     a.eval (ringOps R) env = b.eval (ringOps R) env := polyEq_sound' ringOps_ringLike h env
